@@ -18,7 +18,7 @@ CLAIMS: dict[str, tuple[str, str, str, str]] = {
         'presence kind as the row demands - whose arguments, expanded through local and self '
         'definitions and enclosing tests, read every fact a detecting check needs, attached to '
         'the element that owns the fact; the check family itself must route verdicts through '
-        'check_true -> add_error; counted loops must advance by a positive step. An element\'s own checks are not switched off by state carried over a manifest refresh (R18.10).',
+        'check_true -> add_error; counted loops must advance by a positive step. An element\'s own checks are not switched off by state carried over a manifest refresh (R18.10). Where the expectation is an equality (decode time, sequence number, offsets, availabilityStartTime across a refresh) a detecting check is two-sided (R18.12).',
         'Not decided: absence of false positives on server output (needs the server values), '
         'sufficiency of each comparison, termination in general.',
         'DESIGN.md section 4, C18'),
@@ -29,7 +29,7 @@ CLAIMS: dict[str, tuple[str, str, str, str]] = {
         'by interval analysis of the formatter on all paths (so rounding must carry); the parsed '
         'fractional second is not a truncated scaled float; only a zero offset is rewritten to Z '
         '(regex AST) and the parser rebuilds the offset from sign/hour/minute; the Jinja filters '
-        'are the library functions. A static necessary condition - not the numeric round trip.',
+        'are the library functions; the fraction digits keep their place value on the way to the microsecond; a time zone is attached with replace(tzinfo=..) only to a value that has none (R19.7). A static necessary condition - not the numeric round trip.',
         'Not decided: half-millisecond accuracy of the float arithmetic itself, the tick '
         'conversions (value arithmetic). Axioms: durations are >= 0; x - floor(x) in [0,1). '
         'Trusted: CPython ast, re._parser.',
@@ -46,7 +46,7 @@ CLAIMS: dict[str, tuple[str, str, str, str]] = {
         'and getvalue() except the guarded corruption hook; every path of generate_media_segment '
         'that inserts a box (emsg before moof, tfdt or PIFF into traf) reaches the reset of '
         'tfhd.base_data_offset / the forcing of trun.data_offset before encode (boolean flag '
-        'propagation over all paths); the edit API invalidates caches and propagates sizes. Every path to encode (edited or not) resets the tfhd base read from the stored file and forces the trun data_offset field, because the fragment is re-based and trun.post_encode can add the field only by growing the encoded box (R03.7).',
+        'propagation over all paths); the edit API invalidates caches and propagates sizes. Every path to encode (edited or not) resets the tfhd base read from the stored file and forces the trun data_offset field, because the fragment is re-based and trun.post_encode can add the field only by growing the encoded box (R03.7). The saio offset is decided as a linear form per path (first senc entry minus the tfhd base, or minus the moof position); a reset saio is written with one entry unless there is no senc sample (R03.8).',
         'Not decided: byte identity of mdat, the numerical value of an offset for a given file. '
         'Trusted: the layout idiom table of the extractor (classes it cannot model are reported '
         'by name and the analysed count has a floor).',
@@ -62,7 +62,7 @@ CLAIMS: dict[str, tuple[str, str, str, str]] = {
         'edit API must invalidate cached encodings and propagate size deltas, and encode() must '
         'back-patch sizes before the post-encode fix-ups; the box header reader/writer must agree; '
         'FieldReader.read() results must not be used as values. This is the reader/writer '
-        'agreement that byte-exact round-tripping needs, decided for all inputs. Mp4Atom._invalidate is decided per path: leaving the cache alone implies `_encoded is None`, clearing without recursing implies no parent.',
+        'agreement that byte-exact round-tripping needs, decided for all inputs. Mp4Atom._invalidate is decided per path: leaving the cache alone implies `_encoded is None`, clearing without recursing implies no parent. The expandable descriptor size is read back as written for sizes on both sides of every seven-bit boundary (R04.9: partial evaluation of writer and reader loops over constants, no repository code runs).',
         'Not decided: equality of values (floats, dates), lazy vs eager field equality, the JSON '
         'round trip as a whole, bounded edit sequences. Guard linkages accepted: presence tests on '
         'the writer side (`x is not None`, `\'x\' in _fields`) against any reader-side condition.',
@@ -79,7 +79,7 @@ CLAIMS: dict[str, tuple[str, str, str, str]] = {
         'autoescaped files only on known producers; xs:duration / xs:dateTime / unsigned-int '
         'attributes must use their lexical formatter; attributes required for MPD@type must be '
         'emitted on every mode branch the manifest supports; URL templates may only use DASH '
-        'identifiers; URL text is escaped exactly once. The rules of C19 about the xs:dateTime / xs:duration formatters run here too (R05.8).',
+        'identifiers; URL text is escaped exactly once. The rules of C19 about the xs:dateTime / xs:duration formatters run here too (R05.8). A representation read before a media file is indexed on demand is not used after the indexing call (R05.10, may-analysis) - the structural half of "no AdaptationSet is empty".',
         'Not decided: uniqueness of ids, non-empty AdaptationSets, non-negative durations '
         '(run-time values). Trusted: the Jinja2 parser; Flask\'s autoescape-by-extension rule '
         '(restated); the field table (free text vs numeric vs vocabulary vs file-derived), where '
@@ -98,7 +98,7 @@ CLAIMS: dict[str, tuple[str, str, str, str]] = {
         'the ValueError the caller maps to 404; the static first/last range is startNumber .. '
         'startNumber + N - 1 on every path that implies a static mode; the indexer start clock is '
         'the tfdt or the previous end and the end is start + sample durations (linear evaluation of '
-        'one fragment); static number and file index differ by start_number - 1.',
+        'one fragment); static number and file index differ by start_number - 1; the stored media duration is the sum of the fragment durations wherever it is computed (R06.12).',
         'Not decided: counts, gaplessness, tiling of ranges, decode times - arithmetic on stored data.',
         'DESIGN.md section 4, C06'),
     'C07': (
@@ -130,7 +130,7 @@ CLAIMS: dict[str, tuple[str, str, str, str]] = {
         'handlers parse options through the same restrictions/features; originalPublishTime is '
         'fromtimestamp(publish) and the manifest sets publish=int(publishTime.timestamp()) with a '
         'whole-second publishTime; every manifest advertising the patch feature also has '
-        'segmentTimeline, live mode and a patch template. availabilityStartTime stands still between a manifest and its patch (back-off confined to the start of the anchored unit).',
+        'segmentTimeline, live mode and a patch template. availabilityStartTime stands still between a manifest and its patch (back-off confined to the start of the anchored unit). PatchLocation and Location are completed with their own parameter sets (R09.6).',
         'Not decided: that two manifests at T1 < T2 agree on shared segments, monotonic windows '
         '(histories/arithmetic).',
         'DESIGN.md section 4, C09'),
@@ -258,7 +258,7 @@ CLAIMS: dict[str, tuple[str, str, str, str]] = {
         'cleared or re-targeted where its media file is deleted; the columns the property calls '
         'names must carry a uniqueness constraint; replace-on-upload must delete row and file '
         'together. Referential consistency is decided as far as it is a property of schema + '
-        'deletion sites. Bulk DELETE statements only on models that own nothing and that nothing refers to (R17.8).',
+        'deletion sites. Bulk DELETE statements only on models that own nothing and that nothing refers to (R17.8). A row that is replaced is looked up by the value its replacement is created with (R17.10).',
         'Not decided: interleavings of concurrent requests, 200/4xx behaviour of listed streams '
         'after a history, byte-exact serving of uploads. Trusted: SQLAlchemy cascade semantics as '
         'documented; typed-receiver resolution of the call graph.',
@@ -273,7 +273,7 @@ CLAIMS: dict[str, tuple[str, str, str, str]] = {
         'is >= 60 s old; with a period p > 0 publishTime is availabilityStartTime + int(elapsed//p)*p; '
         'no divisor can be zero; parser and branch table agree on the symbolic values. A symbolic start backs '
         'off only at the start of the calendar unit it is anchored at; the C19 rules about the ISO date-time '
-        'parser of the explicit start run here too (R08.10).',
+        'parser of the explicit start run here too (R08.10), including that a parsed start is never relabelled with replace(tzinfo=..) unless it has no zone (R19.7).',
         'Axioms: wall clock >= 2020-01-01Z; explicit start <= now; depth/mup/leeway are int or None; '
         'segment_duration, timescale >= 1; calendar spans. Not decided: publishTime monotone in now, '
         'lag < p + 1 s, same instant within a UTC day (two-run / three-variable clauses). '
